@@ -175,3 +175,348 @@ Proof. intros. unfold locate. apply (li_mt_pk_locate 64); assumption. Qed.
 
 Lemma li_mt_pk_none n i : n <= i -> li_mt_pk i n = None.
 Proof. intros. unfold li_mt_pk. destruct (Z.ltb_spec i n); [lia|reflexivity]. Qed.
+
+(* ------------------------------------------------------------------------------------------ C12: verify *)
+Lemma skipn_nth {A : Type} (d : A) : forall (l : list A) (a : nat), (a < length l)%nat ->
+  skipn a l = nth a l d :: skipn (S a) l.
+Proof.
+  induction l as [|x l IH]; intros a Ha; cbn [length] in Ha; [lia|].
+  destruct a as [|a]; [reflexivity|]. cbn [skipn nth]. apply IH. lia.
+Qed.
+
+Lemma skipn_add {A : Type} : forall (b a : nat) (l : list A), skipn a (skipn b l) = skipn (b + a) l.
+Proof.
+  induction b as [|b IH]; intros a l; [reflexivity|].
+  destruct l as [|x l]; [cbn; destruct a; reflexivity|]. cbn [skipn Nat.add]. apply IH.
+Qed.
+
+Lemma locate_aligned (K : nat) : forall nc off (k : nat), 0 <= off -> off mod 2 ^ Z.of_nat k = 0 ->
+  off + 2 ^ Z.of_nat k <= nc -> nc < 2 ^ Z.of_nat K ->
+  let '(pk, hh, j) := locate_at K nc off in Z.of_nat k <= hh /\ j mod 2 ^ Z.of_nat k = 0.
+Proof.
+  induction K as [|K IH]; intros nc off k Hoff Hal Hle Hnc.
+  - change (2 ^ Z.of_nat 0) with 1 in Hnc. pose proof (p2_nat_pos k). lia.
+  - cbn [locate_at]. cbv zeta. rewrite p2_S in Hnc. pose proof (p2_nat_pos k) as Hkp.
+    destruct (Z.leb_spec (2 ^ Z.of_nat K) nc).
+    + destruct (Z.ltb_spec off (2 ^ Z.of_nat K)).
+      * split; [|exact Hal].
+        destruct (Z.le_gt_cases (Z.of_nat k) (Z.of_nat K)) as [|Hgt]; [assumption|].
+        assert (2 ^ (Z.of_nat K + 1) <= 2 ^ Z.of_nat k) by (apply p2_le; lia).
+        rewrite p2_succ in * by lia. lia.
+      * assert (Hk : Z.of_nat k < Z.of_nat K).
+        { destruct (Z.lt_ge_cases (Z.of_nat k) (Z.of_nat K)) as [|Hge]; [assumption|].
+          assert (2 ^ Z.of_nat K <= 2 ^ Z.of_nat k) by (apply p2_le; lia). lia. }
+        assert (Hdiv : (2 ^ Z.of_nat K) mod 2 ^ Z.of_nat k = 0).
+        { replace (2 ^ Z.of_nat K) with (2 ^ (Z.of_nat K - Z.of_nat k) * 2 ^ Z.of_nat k).
+          - apply Z.mod_mul. lia.
+          - rewrite <- Z.pow_add_r by lia. f_equal. lia. }
+        specialize (IH (nc - 2 ^ Z.of_nat K) (off - 2 ^ Z.of_nat K) k ltac:(lia)).
+        destruct (locate_at K (nc - 2 ^ Z.of_nat K) (off - 2 ^ Z.of_nat K)) as [[pk hh] j].
+        apply IH; try lia.
+        rewrite Zminus_mod. rewrite Hal, Hdiv. reflexivity.
+    + specialize (IH nc off k Hoff Hal Hle ltac:(lia)).
+      destruct (locate_at K nc off) as [[pk hh] j]. exact IH.
+Qed.
+
+
+Lemma locate_bounds n i : 0 <= i < n -> n < 2 ^ 64 ->
+  let '(pk, h, j) := locate n i in 0 <= pk < num_peaks n /\ 0 <= h < 64 /\ 0 <= j < 2 ^ h.
+Proof. intros Hi Hn. exact (locate_at_bounds 64 n i Hi Hn). Qed.
+
+Lemma locate_aligned64 nc off (k : nat) : 0 <= off -> off mod 2 ^ Z.of_nat k = 0 ->
+  off + 2 ^ Z.of_nat k <= nc -> nc < 2 ^ 64 ->
+  let '(pk, hh, j) := locate nc off in Z.of_nat k <= hh /\ j mod 2 ^ Z.of_nat k = 0.
+Proof. intros. exact (locate_aligned 64 nc off k H H0 H1 H2). Qed.
+
+Lemma num_peaks_at n : num_peaks n = popcount_at 64 n.
+Proof. reflexivity. Qed.
+
+Opaque locate num_peaks.
+
+Lemma len_u32_some {D : Type} (l : list D) : zlen l < 2 ^ 32 -> len_u32 l = Some (zlen l).
+Proof.
+  intros Hl. unfold len_u32. change (2 ^ 32) with 4294967296 in Hl.
+  destruct (Z.ltb_spec (zlen l) 4294967296); [reflexivity|lia].
+Qed.
+
+
+Section Succ.
+Variable D : Type.
+Variable H : D -> D -> D.
+Variable deq : D -> D -> bool.
+Variable dflt : D.
+
+Lemma sp_climb_snd : forall n idx node paths ap,
+  snd (sp_climb D H dflt n idx node paths ap) = ap + Z.of_nat n.
+Proof.
+  induction n as [|n IH]; intros; cbn [sp_climb]; [cbn; lia|]. rewrite IH. lia.
+Qed.
+
+Lemma sp_climb_spec : forall n x node paths ap, 0 <= x < 2 ^ Z.of_nat n -> 0 <= ap ->
+  ap + Z.of_nat n <= zlen paths ->
+  sp_climb D H dflt n (2 ^ Z.of_nat n + x) node paths ap =
+  (fold_up D H x node (firstn n (skipn (Z.to_nat ap) paths)), ap + Z.of_nat n).
+Proof.
+  induction n as [|n IH]; intros x node paths ap Hx Hap Hlen.
+  - cbn. f_equal. lia.
+  - cbn [sp_climb]. rewrite p2_S in *. unfold zlen in Hlen.
+    rewrite (skipn_nth dflt paths (Z.to_nat ap)) by lia.
+    cbn [firstn fold_up].
+    replace ((2 * 2 ^ Z.of_nat n + x) / 2) with (2 ^ Z.of_nat n + x / 2) by lia.
+    replace (Z.land (2 * 2 ^ Z.of_nat n + x) 1 =? 0) with (Z.even x).
+    2:{ change 1 with (2 ^ 1 - 1). rewrite land_mask by lia. change (2 ^ 1) with 2.
+        rewrite Z.add_comm, Z.mul_comm, Z.mod_add by lia. rewrite Zmod_even. destruct (Z.even x); reflexivity. }
+    rewrite IH.
+    + replace (Z.to_nat (ap + 1)) with (S (Z.to_nat ap)) by lia. f_equal. lia.
+    + split; [apply Z.div_pos; lia | apply Z.div_lt_upper_bound; lia].
+    + lia.
+    + unfold zlen. lia.
+Qed.
+
+Variable nc : Z.
+Variable np : list D.
+Hypothesis Hnc : 0 <= nc < 2 ^ 64.
+Hypothesis Hnp : zlen np = num_peaks nc.
+
+Lemma loop_step_A (k : nat) rem offset :
+  2 ^ Z.of_nat k <= rem < 2 * 2 ^ Z.of_nat k -> 0 <= offset -> offset mod 2 ^ Z.of_nat k = 0 ->
+  offset + rem <= nc ->
+  exists npk hh j, locate nc offset = (npk, hh, j) /\
+    0 <= npk < zlen np /\ 0 <= j /\
+    Z.of_nat k <= hh /\ 0 <= j / 2 ^ Z.of_nat k < 2 ^ (hh - Z.of_nat k).
+Proof.
+  intros Hrem Hoff Hal Hle.
+  pose proof (p2_nat_pos k) as Hkp.
+  pose proof (locate_bounds nc offset ltac:(lia) ltac:(lia)) as Hb.
+  pose proof (locate_aligned64 nc offset k Hoff Hal ltac:(lia) ltac:(lia)) as Ha.
+  destruct (locate nc offset) as [[npk hh] j].
+  exists npk, hh, j. split; [reflexivity|].
+  destruct Hb as (Hpk & Hhh & Hj). destruct Ha as (Hkh & Hjm).
+  assert (E2 : 2 ^ hh = 2 ^ (hh - Z.of_nat k) * 2 ^ Z.of_nat k).
+  { rewrite <- Z.pow_add_r by lia. f_equal. lia. }
+  split; [lia|]. split; [lia|]. split; [exact Hkh|].
+  split; [apply Z.div_pos; lia|]. apply Z.div_lt_upper_bound; [lia|]. rewrite Z.mul_comm. rewrite <- E2. lia.
+Qed.
+
+Lemma loop_step_B (k : nat) pk r rem offset ap paths npk hh j :
+  2 ^ Z.of_nat k <= rem < 2 * 2 ^ Z.of_nat k -> 0 <= offset ->
+  offset + rem <= nc ->
+  li_mt_pk offset nc = Some (2 ^ hh + j, npk) ->
+  0 <= npk < zlen np -> 0 <= j ->
+  Z.of_nat k <= hh -> 0 <= j / 2 ^ Z.of_nat k < 2 ^ (hh - Z.of_nat k) ->
+  sp_verify_loop D H deq dflt (pk :: r) rem offset ap paths nc np =
+  (let '(node, ap') := sp_climb D H dflt (Z.to_nat (hh - Z.of_nat k)) (2 ^ (hh - Z.of_nat k) + j / 2 ^ Z.of_nat k) pk paths ap in
+   if negb (deq (nth (Z.to_nat npk) np dflt) node) then Some false
+   else sp_verify_loop D H deq dflt r (rem - 2 ^ Z.of_nat k) (offset + 2 ^ Z.of_nat k) ap' paths nc np).
+Proof.
+  intros Hrem Hoff Hle Hli Hpk Hj Hkh Hq.
+  pose proof (p2_nat_pos k) as Hkp.
+  assert (E2 : 2 ^ hh = 2 ^ (hh - Z.of_nat k) * 2 ^ Z.of_nat k).
+  { rewrite <- Z.pow_add_r by lia. f_equal. lia. }
+  assert (El : Z.log2 rem = Z.of_nat k).
+  { apply Z.log2_unique; [lia|]. rewrite Z.pow_succ_r by lia. lia. }
+  assert (Hadd : add64 offset (2 ^ Z.of_nat k) = Some (offset + 2 ^ Z.of_nat k)).
+  { unfold add64, two64. change (2 ^ 64) with 18446744073709551616 in Hnc.
+    destruct (Z.ltb_spec (offset + 2 ^ Z.of_nat k) 18446744073709551616); [reflexivity|lia]. }
+  assert (Ecur : (2 ^ hh + j) / 2 ^ Z.of_nat k = 2 ^ (hh - Z.of_nat k) + j / 2 ^ Z.of_nat k).
+  { rewrite E2. rewrite Z.div_add_l by lia. reflexivity. }
+  pose proof (p2_pos (hh - Z.of_nat k) ltac:(lia)) as Hpp.
+  assert (Elog : Z.log2 (2 ^ (hh - Z.of_nat k) + j / 2 ^ Z.of_nat k) = hh - Z.of_nat k).
+  { apply Z.log2_unique; [lia|]. rewrite Z.pow_succ_r by lia. lia. }
+  assert (Hnth : nth_error np (Z.to_nat npk) = Some (nth (Z.to_nat npk) np dflt)).
+  { apply nth_error_nth'. unfold zlen in Hpk. lia. }
+  cbn [sp_verify_loop].
+  destruct (Z.leb_spec rem 0); [lia|].
+  rewrite El. rewrite Hli. cbn [obind]. rewrite Hadd. cbn [obind]. rewrite Ecur.
+  destruct (Z.leb_spec (2 ^ (hh - Z.of_nat k) + j / 2 ^ Z.of_nat k) 0); [lia|].
+  rewrite Elog.
+  destruct (sp_climb D H dflt (Z.to_nat (hh - Z.of_nat k)) (2 ^ (hh - Z.of_nat k) + j / 2 ^ Z.of_nat k) pk paths ap) as [node ap'].
+  rewrite Hnth. cbn [obind]. reflexivity.
+Qed.
+
+Lemma locate_facts (k : nat) rem offset :
+  2 ^ Z.of_nat k <= rem < 2 * 2 ^ Z.of_nat k -> 0 <= offset -> offset mod 2 ^ Z.of_nat k = 0 ->
+  offset + rem <= nc ->
+  exists npk hh j, locate nc offset = (npk, hh, j) /\
+    li_mt_pk offset nc = Some (2 ^ hh + j, npk) /\ 0 <= npk < zlen np /\ 0 <= j /\
+    Z.of_nat k <= hh /\ 0 <= j / 2 ^ Z.of_nat k < 2 ^ (hh - Z.of_nat k).
+Proof.
+  intros Hrem Hoff Hal Hle.
+  destruct (loop_step_A k rem offset Hrem Hoff Hal Hle) as (npk & hh & j & Eloc & Hrest).
+  exists npk, hh, j. split; [exact Eloc|]. split; [|exact Hrest].
+  pose proof (p2_nat_pos k) as Hkp.
+  pose proof (li_mt_pk_spec nc offset ltac:(lia) ltac:(lia)) as Hli.
+  rewrite Eloc in Hli. exact Hli.
+Qed.
+
+Lemma mod_pow2_down (k : nat) x : x mod (2 * 2 ^ Z.of_nat k) = 0 -> x mod 2 ^ Z.of_nat k = 0.
+Proof.
+  intros Hx. pose proof (p2_nat_pos k).
+  apply Z.mod_divide in Hx; [|lia]. destruct Hx as [q Hq].
+  subst x. replace (q * (2 * 2 ^ Z.of_nat k)) with ((q * 2) * 2 ^ Z.of_nat k) by lia. apply Z.mod_mul. lia.
+Qed.
+
+Lemma mod_pow2_step (k : nat) x : x mod (2 * 2 ^ Z.of_nat k) = 0 -> (x + 2 ^ Z.of_nat k) mod 2 ^ Z.of_nat k = 0.
+Proof.
+  intros Hx. apply mod_pow2_down in Hx. pose proof (p2_nat_pos k).
+  rewrite <- (Z.mul_1_l (2 ^ Z.of_nat k)) at 1. rewrite Z.mod_add by lia. exact Hx.
+Qed.
+
+Lemma zlen_cons_inv (l : list D) n : zlen l = 1 + n -> 0 <= n -> exists x r, l = x :: r /\ zlen r = n.
+Proof.
+  intros Hl Hn. destruct l as [|x r]; unfold zlen in *; cbn [length] in *; [lia|].
+  exists x, r. split; [reflexivity|lia].
+Qed.
+
+Lemma loop_total (k : nat) : forall old_peaks rem offset ap paths,
+  0 <= rem < 2 ^ Z.of_nat k -> zlen old_peaks = popcount_at k rem -> 0 <= offset ->
+  offset mod 2 ^ Z.of_nat k = 0 -> offset + rem <= nc -> 0 <= ap ->
+  exists b, sp_verify_loop D H deq dflt old_peaks rem offset ap paths nc np = Some b /\
+            (zlen paths < ap -> b = false).
+Proof.
+  induction k as [|k IH]; intros old_peaks rem offset ap paths Hrem Hlen Hoff Hal Hle Hap.
+  - change (2 ^ Z.of_nat 0) with 1 in Hrem. cbn [popcount_at] in Hlen.
+    destruct old_peaks; [|unfold zlen in Hlen; cbn [length] in Hlen; lia].
+    cbn [sp_verify_loop]. eexists. split; [reflexivity|].
+    intros Hlt. apply Z.eqb_neq. lia.
+  - rewrite p2_S in *. cbn [popcount_at] in Hlen. cbv zeta in Hlen.
+    destruct (Z.leb_spec (2 ^ Z.of_nat k) rem) as [Hge|Hlt].
+    + pose proof (popcount_at_nonneg k (rem - 2 ^ Z.of_nat k)) as Hpn.
+      destruct (zlen_cons_inv _ _ Hlen Hpn) as (pk & r & -> & Hr).
+      pose proof (mod_pow2_down k offset Hal) as Hal'.
+      destruct (locate_facts k rem offset ltac:(lia) Hoff Hal' Hle) as (npk & hh & j & Eloc & Hli & Hpk & Hj & Hkh & Hq).
+      rewrite (loop_step_B k pk r rem offset ap paths npk hh j); try lia; try assumption.
+      pose proof (sp_climb_snd (Z.to_nat (hh - Z.of_nat k)) (2 ^ (hh - Z.of_nat k) + j / 2 ^ Z.of_nat k) pk paths ap) as Hsnd.
+      destruct (sp_climb D H dflt (Z.to_nat (hh - Z.of_nat k)) (2 ^ (hh - Z.of_nat k) + j / 2 ^ Z.of_nat k) pk paths ap) as [node ap'].
+      cbn [snd] in Hsnd.
+      destruct (negb (deq (nth (Z.to_nat npk) np dflt) node)).
+      * eexists. split; [reflexivity|]. reflexivity.
+      * destruct (IH r (rem - 2 ^ Z.of_nat k) (offset + 2 ^ Z.of_nat k) ap' paths) as (b & Hb1 & Hb2); try lia.
+        { apply mod_pow2_step. exact Hal. }
+        exists b. split; [exact Hb1|]. intros. apply Hb2. lia.
+    + apply IH; try lia; try assumption. apply mod_pow2_down. exact Hal.
+Qed.
+
+Lemma skipn_nil_iff (l : list D) (a : nat) : (a <= length l)%nat -> (skipn a l = [] <-> a = length l).
+Proof.
+  intros Ha. split; intros E.
+  - pose proof (skipn_length a l) as Hs. rewrite E in Hs. cbn in Hs. lia.
+  - subst. apply skipn_all.
+Qed.
+
+Lemma succ_loop_nil (k : nat) : forall offset ps,
+  succ_loop D H deq dflt k [] 0 offset ps nc np = match ps with [] => true | _ => false end.
+Proof.
+  induction k as [|k IH]; intros; [reflexivity|].
+  cbn [succ_loop]. cbv zeta. pose proof (p2_nat_pos k).
+  destruct (Z.leb_spec (2 ^ Z.of_nat k) 0); [lia|]. apply IH.
+Qed.
+
+Lemma loop_spec (k : nat) : forall old_peaks rem offset ap paths,
+  0 <= rem < 2 ^ Z.of_nat k -> zlen old_peaks = popcount_at k rem -> 0 <= offset ->
+  offset mod 2 ^ Z.of_nat k = 0 -> offset + rem <= nc -> 0 <= ap <= zlen paths ->
+  sp_verify_loop D H deq dflt old_peaks rem offset ap paths nc np =
+  Some (succ_loop D H deq dflt k old_peaks rem offset (skipn (Z.to_nat ap) paths) nc np).
+Proof.
+  induction k as [|k IH]; intros old_peaks rem offset ap paths Hrem Hlen Hoff Hal Hle Hap.
+  - change (2 ^ Z.of_nat 0) with 1 in Hrem. cbn [popcount_at] in Hlen.
+    destruct old_peaks; [|unfold zlen in Hlen; cbn [length] in Hlen; lia].
+    cbn [sp_verify_loop succ_loop]. f_equal. unfold zlen in *.
+    pose proof (skipn_nil_iff paths (Z.to_nat ap) ltac:(lia)) as Hs.
+    destruct (skipn (Z.to_nat ap) paths) eqn:E.
+    + apply Z.eqb_eq. destruct Hs as [Hs _]. specialize (Hs eq_refl). lia.
+    + apply Z.eqb_neq. intros Heq. destruct Hs as [_ Hs]. assert (Hnil : d :: l = []) by (apply Hs; lia). discriminate Hnil.
+  - rewrite p2_S in *. cbn [popcount_at] in Hlen. cbv zeta in Hlen.
+    cbn [succ_loop]. cbv zeta.
+    destruct (Z.leb_spec (2 ^ Z.of_nat k) rem) as [Hge|Hlt].
+    + pose proof (popcount_at_nonneg k (rem - 2 ^ Z.of_nat k)) as Hpn.
+      destruct (zlen_cons_inv _ _ Hlen Hpn) as (pk & r & -> & Hr).
+      pose proof (mod_pow2_down k offset Hal) as Hal'.
+      destruct (locate_facts k rem offset ltac:(lia) Hoff Hal' Hle) as (npk & hh & j & Eloc & Hli & Hpk & Hj & Hkh & Hq).
+      rewrite (loop_step_B k pk r rem offset ap paths npk hh j); try lia; try assumption.
+      rewrite Eloc.
+      destruct (Z.leb_spec 0 (hh - Z.of_nat k)); [|lia]. cbn [andb].
+      assert (Hzl : zlength (skipn (Z.to_nat ap) paths) = zlen paths - ap).
+      { unfold zlength, zlen in *. rewrite skipn_length. lia. }
+      rewrite Hzl.
+      destruct (Z.leb_spec (hh - Z.of_nat k) (zlen paths - ap)) as [Henough|Hshort].
+      * cbn [andb].
+        replace (2 ^ (hh - Z.of_nat k)) with (2 ^ Z.of_nat (Z.to_nat (hh - Z.of_nat k))) by (f_equal; lia).
+        rewrite sp_climb_spec; try lia.
+        2:{ rewrite Z2Nat.id by lia. exact Hq. }
+        destruct (deq (nth (Z.to_nat npk) np dflt)
+                      (fold_up D H (j / 2 ^ Z.of_nat k) pk (firstn (Z.to_nat (hh - Z.of_nat k)) (skipn (Z.to_nat ap) paths)))).
+        -- cbn [negb andb].
+           rewrite IH; try lia; try assumption.
+           ++ f_equal. f_equal. rewrite skipn_add. f_equal. lia.
+           ++ apply mod_pow2_step. exact Hal.
+        -- reflexivity.
+      * cbn [andb].
+        pose proof (sp_climb_snd (Z.to_nat (hh - Z.of_nat k)) (2 ^ (hh - Z.of_nat k) + j / 2 ^ Z.of_nat k) pk paths ap) as Hsnd.
+        destruct (sp_climb D H dflt (Z.to_nat (hh - Z.of_nat k)) (2 ^ (hh - Z.of_nat k) + j / 2 ^ Z.of_nat k) pk paths ap) as [node ap'].
+        cbn [snd] in Hsnd.
+        destruct (negb (deq (nth (Z.to_nat npk) np dflt) node)); [reflexivity|].
+        destruct (loop_total k r (rem - 2 ^ Z.of_nat k) (offset + 2 ^ Z.of_nat k) ap' paths) as (b & Hb1 & Hb2); try lia.
+        { apply mod_pow2_step. exact Hal. }
+        rewrite Hb1. f_equal. apply Hb2. lia.
+    + apply IH; try lia; try assumption. apply mod_pow2_down. exact Hal.
+Qed.
+
+End Succ.
+
+(* the repaired verify decides exactly the specification, and never panics *)
+Theorem sp_verify_v1_spec (D : Type) (H : D -> D -> D) (deq : D -> D -> bool) (dflt : D)
+        (sp : list D) (old new : Z * list D) :
+  0 <= fst old < 2 ^ 64 -> 0 <= fst new < 2 ^ 64 -> zlen (snd old) < 2 ^ 32 -> zlen (snd new) < 2 ^ 32 ->
+  sp_verify_v1 D H deq dflt sp old new = Some (succ_verify_spec D H deq dflt sp old new).
+Proof.
+  intros Ho Hn Hlo Hln. destruct old as [oc op], new as [nc np]. cbn [fst snd] in *.
+  unfold sp_verify_v1, sp_verify_gen, succ_verify_spec. cbn [fst snd].
+  rewrite Z.ltb_antisym.
+  destruct (Z.leb_spec oc nc) as [Hle|Hgt]; [|reflexivity]. cbn [negb andb].
+  rewrite (len_u32_some np Hln). cbn [obind].
+  rewrite <- (num_peaks_spec nc Hn). change (zlength np) with (zlen np).
+  rewrite (Z.eqb_sym (zlen np)).
+  destruct (Z.eqb_spec (count_ones nc) (zlen np)) as [Enp|]; [|reflexivity]. cbn [negb andb].
+  rewrite (len_u32_some op Hlo). cbn [obind].
+  rewrite <- (num_peaks_spec oc Ho). change (zlength op) with (zlen op).
+  rewrite (Z.eqb_sym (zlen op)).
+  destruct (Z.eqb_spec (count_ones oc) (zlen op)) as [Eop|]; [|reflexivity]. cbn [negb andb].
+  assert (Hnp : zlen np = num_peaks nc) by (rewrite <- Enp; apply num_peaks_spec; exact Hn).
+  rewrite (loop_spec D H deq dflt nc np Hn Hnp 64 op oc 0 0 sp).
+  - reflexivity.
+  - exact Ho.
+  - rewrite <- Eop. rewrite <- num_peaks_at. apply num_peaks_spec. exact Ho.
+  - lia.
+  - reflexivity.
+  - lia.
+  - unfold zlen. lia.
+Qed.
+
+Theorem sp_verify_v1_total (D : Type) (H : D -> D -> D) (deq : D -> D -> bool) (dflt : D)
+        (sp : list D) (old new : Z * list D) :
+  0 <= fst old < 2 ^ 64 -> 0 <= fst new < 2 ^ 64 -> zlen (snd old) < 2 ^ 32 -> zlen (snd new) < 2 ^ 32 ->
+  sp_verify_v1 D H deq dflt sp old new <> None /\
+  (zlen (snd old) <> count_ones (fst old) \/ zlen (snd new) <> count_ones (fst new) \/ fst new < fst old ->
+   sp_verify_v1 D H deq dflt sp old new = Some false).
+Proof.
+  intros Ho Hn Hlo Hln. rewrite sp_verify_v1_spec by assumption. split; [discriminate|].
+  intros Hbad. f_equal. unfold succ_verify_spec.
+  rewrite <- (num_peaks_spec (fst new) Hn), <- (num_peaks_spec (fst old) Ho).
+  change (zlength (snd new)) with (zlen (snd new)). change (zlength (snd old)) with (zlen (snd old)).
+  destruct (Z.leb_spec (fst old) (fst new)); cbn [andb]; [|reflexivity].
+  destruct (Z.eqb_spec (zlen (snd new)) (count_ones (fst new))); cbn [andb]; [|reflexivity].
+  destruct (Z.eqb_spec (zlen (snd old)) (count_ones (fst old))); cbn [andb]; [|reflexivity].
+  lia.
+Qed.
+
+(* on a consistent old accumulator the historical code and the repaired code coincide *)
+Lemma sp_verify_v0_consistent (D : Type) (H : D -> D -> D) (deq : D -> D -> bool) (dflt : D)
+      (sp : list D) (old new : Z * list D) :
+  zlen (snd old) < 2 ^ 32 -> zlen (snd old) = count_ones (fst old) ->
+  sp_verify_v0 D H deq dflt sp old new = sp_verify_v1 D H deq dflt sp old new.
+Proof.
+  intros Hl Hc. unfold sp_verify_v0, sp_verify_v1, sp_verify_gen.
+  rewrite (len_u32_some (snd old) Hl). cbn [obind].
+  rewrite Hc. rewrite Z.eqb_refl. reflexivity.
+Qed.
